@@ -467,6 +467,31 @@ class Interp:
                 i = self.ev(e.slice)
                 return Elem("elements", i)
             raise Unrecognised(norm(e)[:80])
+        if isinstance(e, ast.IfExp):
+            # X[0] if X.size > 0 else 0  with X the indices where a mask holds: the first such index, 0 if there is
+            # none — what np.argmax of the mask gives
+            def where(x):
+                if isinstance(x, ast.Call) and (call_name(x) or "") in ("np.flatnonzero", "numpy.flatnonzero") and len(x.args) == 1:
+                    return x.args[0]
+                if isinstance(x, ast.Subscript) and isinstance(x.slice, ast.Constant) and x.slice.value == 0 and isinstance(x.value, ast.Call) and (call_name(x.value) or "") in ("np.nonzero", "np.where", "numpy.nonzero", "numpy.where") and len(x.value.args) == 1:
+                    return x.value.args[0]
+                return None
+
+            b, t, o = e.body, e.test, e.orelse
+            if isinstance(b, ast.Subscript) and isinstance(b.slice, ast.Constant) and b.slice.value == 0 and where(b.value) is not None and isinstance(o, ast.Constant) and o.value == 0:
+                m_ = where(b.value)
+                size_ok = False
+                if isinstance(t, ast.Compare) and len(t.ops) == 1 and isinstance(t.comparators[0], ast.Constant):
+                    l_ = t.left
+                    same = (isinstance(l_, ast.Attribute) and l_.attr == "size" and norm(l_.value) == norm(b.value)) or (isinstance(l_, ast.Call) and (call_name(l_) or "") == "len" and len(l_.args) == 1 and norm(l_.args[0]) == norm(b.value))
+                    size_ok = same and ((isinstance(t.ops[0], ast.Gt) and t.comparators[0].value == 0) or (isinstance(t.ops[0], ast.GtE) and t.comparators[0].value == 1) or (isinstance(t.ops[0], ast.NotEq) and t.comparators[0].value == 0))
+                elif (isinstance(t, ast.Attribute) and t.attr == "size" and norm(t.value) == norm(b.value)):
+                    size_ok = True
+                if size_ok:
+                    a = self.ev(m_)
+                    if isinstance(a, Mask):
+                        return Idx(a, 0)
+            raise Unrecognised(norm(e)[:80])
         if isinstance(e, ast.Call):
             cn = call_name(e) or ""
             kw = {k.arg: k.value for k in e.keywords}
